@@ -58,7 +58,11 @@ func c12Failing(r *rt.Rand, text bool) *gen.Node {
 	// run-time failures the checker cannot see
 	var n *gen.Node
 	if r.Bool() {
-		n = gen.Bin("/", gen.Int(10), gen.Call("strlen", gen.Str(""))) // division by zero
+		n = []*gen.Node{gen.Bin("/", gen.Int(10), gen.Call("strlen", gen.Str(""))), // division by zero, of every operand kind
+			gen.Bin("/", gen.Float("1.5"), gen.Call("strlen", gen.Str(""))),
+			gen.Bin("/", gen.Int(3), gen.Bin("-", gen.Float("0.5"), gen.Float("0.5"))),
+			gen.Bin("/", gen.Float("4.5"), gen.Bin("-", gen.Float("0.5"), gen.Float("0.5"))),
+			gen.Bin("/", gen.Int(3), gen.Call("float", gen.Str("0")))}[r.Intn(5)]
 	} else {
 		n = gen.Call("l2_distance", gen.Call("list", gen.Int(1), gen.Int(2)), gen.Call("list", gen.Int(1))) // unequal lengths
 	}
